@@ -22,8 +22,8 @@ func init() {
 			"untrusted/expired/misnamed leaf, ServerHello rewritten in flight with an extra extension, read segmentation, unbuffered handshakes, DHE via a zcrypto server); every handshake is one evaluation; " +
 			"non-trivial = the log has ClientHello and ServerHello, the transcript parsed, and at least one populated field was compared; distinct by (peer, negotiated version, suite, group, wire signature bytes, key kind, " +
 			"hello mode, outcome, HRR, ticket offered/issued, CertificateRequest, ALPN/SCT/OCSP/EMS on the wire, rewrite, leaf set, resumed, log sections present)",
-		MinNontrivial:         300,
-		MinNontrivialThorough: 1500,
+		MinNontrivial:         800,
+		MinNontrivialThorough: 8000,
 		Shards:                16,
 		Env:                   []string{"GODEBUG=tlsrsakex=1,tls3des=1,tls10server=1,tlssha1=1"},
 		Assumptions: []string{
